@@ -9,7 +9,7 @@ TRUSTED = ["SHA-2 is not modelled: a recorded leaf carries its content; python h
            "BMFF container handling (box parsing, exclusions, placeholder patching) is exercised by the end-to-end run only, not modelled",
            "harness builds the MP4 (ftyp free mdat.. moov) and patches the manifest over the free box like inject_manifest_into_free_box"]
 ASSUMPTIONS = ["the fixed leaf size is not changed between calls for one mdat",
-               "theorems are per mdat; the pairing of several mdats with their MerkleMaps is covered by the end-to-end run only (see F-MDAT-ORDER)",
+               "theorems are per mdat; the pairing of several mdats with their MerkleMaps (repaired F-MDAT-ORDER) is covered by the end-to-end run and a source anchor only",
                "debug-profile harness; 64-bit usize"]
 
 
@@ -35,14 +35,17 @@ def _norm(t):
 def facts(ctx):
     mk = common.strip_tests(common.src("sdk/src/utils/merkle.rs"))
     add = _norm(common.fn_body(mk, r"pub fn add_merkle_leaf\s*\(", "add_merkle_leaf"))
-    early = int(common.fact(r"if data_len <= (\d+) \{ return Ok\(\(\)\); \}", add, "early-return threshold").group(1))
     if "let mut hash_start = 0;" not in add:
         raise TieBroken("srcfacts: add_merkle_leaf no longer starts with hash_start = 0")
-    skip = int(common.fact(r"return Ok\(\(\)\); \} hash_start = (\d+); \}", add, "header skip").group(1))
+    skip = int(common.fact(r"let to_skip = std::cmp::min\((\d+) - \*skipped, data\.len\(\)\);", add, "header skip").group(1))
     setf = _norm(common.fn_body(mk, r"pub fn set_fixed_size\s*\(", "set_fixed_size"))
     kb = int(common.fact(r"Some\(size \* (\d+)\)", setf, "KB multiplier").group(1))
     for pat, what in [
         ("if !large_size && !self.merkle_leaves.contains_key(&mdat_id) && !self.fixed_size_remainder.contains_key(&mdat_id) {", "first-call test"),
+        ("if data.is_empty() { return Ok(()); }", "empty-chunk return"),
+        ("let skipped = self.header_skipped.entry(mdat_id).or_insert(0);", "per-mdat header skip counter"),
+        ("*skipped += to_skip;", "header skip accounting"),
+        ("if to_skip == data.len() { return Ok(()); } hash_start = to_skip; }", "chunk inside the excluded prefix"),
         ("let mut data_left = data_len - hash_start as u64;", "data_left"),
         ("std::cmp::min(fixed_size - fixed_size_buffer.len(), data_len as usize)", "remainder to_copy"),
         ("let to_copy = std::cmp::min(*fixed_size, data_left as usize);", "leaf to_copy"),
@@ -68,6 +71,8 @@ def facts(ctx):
         ("let leaf_length = std::cmp::min(bytes_left, fixed_block_size);", "validator fixed leaf length"),
         ("if box_info.size().saturating_sub(MDAT_EXCLUSION_SIZE) != variable_block_sizes.iter().sum::<u64>()", "validator variable size check"),
         ("if ranges.len() != mm.count {", "validator count check"),
+        ("let mut mdat_ranges = BTreeMap::new();", "validator ranges kept in mdat order"),
+        ("for (mm, ranges) in mm_vec.iter().zip(mdat_ranges.values()) {", "validator pairing of maps and ranges"),
         ("if !mm.check_merkle_tree(alg, &hash, range_index, &None) {", "validator leaf check"),
     ]:
         if pat not in val:
@@ -88,15 +93,16 @@ def facts(ctx):
     lrg = int(common.fact(r"const HEADER_SIZE_LARGE: u64 = (\d+);", io, "HEADER_SIZE_LARGE").group(1))
     v = ("(* generated from sdk/src/utils/merkle.rs, sdk/src/assertions/bmff_hash.rs, sdk/src/builder.rs on every run — do not edit *)\n"
          "From Coq Require Import NArith.\nOpen Scope N_scope.\n"
-         f"Definition HEADER_SKIP : N := {skip}.\nDefinition SKIP_EARLY_MAX : N := {early}.\n"
+         f"Definition HEADER_SKIP : N := {skip}.\n"
          f"Definition MDAT_EXCLUSION_SIZE : N := {excl}.\nDefinition MDAT_SUBSET_OFFSET : N := {sub}.\n"
          f"Definition KB : N := {kb}.\nDefinition MIN_FIXED_BLOCK_EXCL : N := {minf}.\n"
          f"Definition STD_HEADER : N := {std}.\nDefinition LARGE_HEADER : N := {lrg}.\n")
     common.write_if_changed(os.path.join(common.COQ, "Generated", "C17_facts.v"), v)
-    ctx.facts = {"HEADER_SKIP": skip, "SKIP_EARLY_MAX": early, "MDAT_EXCLUSION_SIZE": excl, "KB": kb, "MIN_FIXED": minf}
+    ctx.facts = {"HEADER_SKIP": skip, "MDAT_EXCLUSION_SIZE": excl, "KB": kb, "MIN_FIXED": minf}
 
 
-# ------------------------------------------------------------------ classes (mirrors of the `known…` predicates)
+# ------------------------------------------------------------------ classes: the input shapes of the repaired findings F-MDAT8 / F-MDAT-EMPTY
+# (kept so that a regression is attributed) and of the open class F-MDAT-FBS1
 
 def lead(chunks):
     t = 0
@@ -121,7 +127,7 @@ def classes(fixed, large, chunks):
     p = b"".join(chunks)
     q = p[0 if large else 8:]
     return {"mdat8": (not large) and lead(chunks) > 0,
-            "empty": fixed is None and any(len(c) == 0 for c in effective(large, chunks)),
+            "empty": fixed is None and any(len(c) == 0 for c in chunks),
             "fbs1": fixed is not None and len(q) == 1}
 
 
@@ -233,7 +239,7 @@ Import ListNotations.
 Open Scope N_scope.
 Definition c17_acc (fixed : option N) (calls : list (N * bool * bytes)) (ids : list N) :=
   let (m, e) := acc_run fixed calls [] in
-  (map (fun id => let st := acc_get m id in (id, leaves st, rem st)) ids, e).
+  (map (fun id => let st := acc_get m id in (id, leaves st, rem st, skipped st)) ids, e).
 Definition c17_mdat (fixed : option N) (large : bool) (hdr : bytes) (cs : list bytes) :=
   match run_chunks fixed large cs fresh_state with
   | AErr e => inl e
@@ -390,13 +396,15 @@ def evaluate(ctx, cases, model_ids):
             mo = mres.get(c["id"], {}).get(0)
             if mo is not None:
                 rows, e = mo
-                mr = {"leaves": {}, "rem": {}, "err": None if e == "None" else [e[1][0], {"AIo": "IoError", "AOther": "OtherError", "ABadParam": "BadParam"}[e[1][1]]]}
-                for idn, lv, rm in rows:
+                mr = {"leaves": {}, "rem": {}, "skipped": {}, "err": None if e == "None" else [e[1][0], {"AIo": "IoError", "AOther": "OtherError", "ABadParam": "BadParam"}[e[1][1]]]}
+                for idn, lv, rm, skd in rows:
+                    if skd:
+                        mr["skipped"][str(idn)] = skd
                     if lv != "None":
                         mr["leaves"][str(idn)] = [[n, sha(bytes(cnt))] for n, cnt in lv[1]]
                     if rm != "None":
                         mr["rem"][str(idn)] = bytes(rm[1]).hex()
-                ir = {"leaves": r["leaves"], "rem": r["rem"], "err": r["err"]}
+                ir = {"leaves": r["leaves"], "rem": r["rem"], "skipped": r.get("skipped", {}), "err": r["err"]}
                 if mr != ir:
                     ctx.disagreements.append({"case": c, "impl": {k: str(v)[:300] for k, v in ir.items() if mr[k] != v},
                                               "model": {k: str(v)[:300] for k, v in mr.items() if ir[k] != v}})
@@ -414,7 +422,7 @@ def evaluate(ctx, cases, model_ids):
                 for k_, v_ in classes(fs, m["large"], chunks).items():
                     cls[k_] = cls[k_] or v_
                 q = p[0 if m["large"] else 8:]
-                with_leaves += 1 if (len(effective(m["large"], chunks)) > 0 and (fs is None or len(q) > 0)) else 0
+                with_leaves += 1 if len(q) > 0 else 0
             cls["multi_mdat"] = with_leaves >= 2
             for k_, v_ in cls.items():
                 st["classes"][k_] += 1 if v_ else 0
